@@ -38,7 +38,7 @@ LEVEL_TEXT = (
     "as many array elements as the type says (L7). Not decided: print/parse round trip, bit order inside integers, the "
     "identity program, decoding of malformed bit strings, and the range checks the *parser* path applies to unsuffixed "
     "literals (check_or_constrain_*: value-level comparisons inside the type checker)."
-    " Also decided since the hunter rounds: the literal entry point returns Ok only at the end of the token stream, with an empty error list (L8); every parser function closes the brackets it opened on every path to Ok (L9); all four literal entry points resolve const sizes of the parameter type first (L10); the checker compares range ends with max() of the element type (L11); every GarbleProgram carries the computed const sizes (L12); the range payload of is_of_type is bounded like the number payloads (L1).")
+    " Also decided since the hunter rounds: the literal entry point returns Ok only at the end of the token stream, with an empty error list (L8); every parser function closes the brackets it opened on every path to Ok (L9); all four literal entry points resolve const sizes of the parameter type first (L10); the checker compares range ends with max() of the element type (L11); every GarbleProgram carries the computed const sizes (L12); the range payload of is_of_type is bounded like the number payloads (L1). L14: is_of_type accepts a Range for the element kinds for which the checker re-types ranges; L15: range literals print as text that parses back (no Literal::Range for signed arrays, no suffix on an end above the type's max); L16: the decoded enum tag is looked up with a checked access.")
 LEVEL_NOTE = ("Trusted: rustc MIR; UnsignedNumType::max / SignedNumType::{min,max} return the bounds of the named type (token.rs, "
               "read); Literal::parse ends in check_type, which is its gate.")
 EXPLANATION = ("Functions analysed: literal::Literal::{is_of_type, as_bits, from_unwrapped_bits}, GarbleProgram::literal_arg, "
